@@ -94,6 +94,11 @@ def judge_case(col: common.Collector, ll: codecrun.LoadedLayer, msg: Dict[str, A
         d.update(extra)
         col.violation((clause, where), d)
 
+    if o.overlap_warnings:
+        # the description makes two objects claim the same bits and the encoder said so: what
+        # the later object overwrote cannot be expected back (nor to be decodable at all)
+        col.count("not-judged:overlap-warning-issued")
+        return
     d = codecrun.decode(obj, pdu)
     if not d.ok and d.exc_type == "DecodeMismatch" and any(p["p"] == "NRC-CONST" for p in msg["params"]):
         # which NRC values a negative response admits is a matching question (C06)
@@ -103,9 +108,6 @@ def judge_case(col: common.Collector, ll: codecrun.LoadedLayer, msg: Dict[str, A
         bad("decode-of-own-pdu-raises",
             d.exc_type + "/" + (msg.get("shape") or codecrun.offender_any(ll.ref, msg)),
             f"{d.exc_type}: {d.exc}", decode=d.brief())
-        return
-    if o.overlap_warnings:
-        col.count("not-judged:overlap-warning-issued")
         return
     kind, enc = codecrun.ref_encode(ll.ref, msg, values, request)
     expected: Any = values
